@@ -235,6 +235,53 @@ func VerifHarness_MergeIntoBackendTree() {
 	zz.Reach("merged")
 }
 
+// The backend announces its tree again later in the same session (world change, data pack reload):
+// each announcement is merged with the proxy tree as the player may use it *then* - a requirement
+// that meanwhile fails, or passes, and a command registered or removed in between are reflected.
+func VerifHarness_LaterTreeFollowsCurrentRequirements() {
+	r := zzReqs("a", "a1", "x", "a2", "b", "b1", "c")
+	d := zzProxyTree(r, false)
+	cfg := config.DefaultConfig
+	cfg.AnnounceProxyCommands = true
+	ev := &zzEvents{}
+	px := zzProxy(&cfg, ev)
+	px.command.Dispatcher = *d
+	conn := newZZConn(767, state.Play)
+	pl := &connectedPlayer{MinecraftConn: conn, log: logr.Discard(), sessionHandlerDeps: &sessionHandlerDeps{proxy: px, eventMgr: ev, configProvider: &zzConfigProvider{cfg: &cfg}}}
+	h := &backendPlaySessionHandler{serverConn: &serverConnection{player: pl}}
+	h.log = logr.Discard()
+	tree := func() *packet.AvailableCommands {
+		back := &brigodier.RootCommandNode{}
+		back.AddChild(brigodier.Literal("say").Executes(zzRun).Build())
+		return &packet.AvailableCommands{RootNode: back}
+	}
+	last := func() brigodier.CommandNode {
+		zz.Assert(len(conn.log) > 0, "the command tree was not passed on to the player")
+		ac, ok := conn.log[len(conn.log)-1].packet.(*packet.AvailableCommands)
+		zz.Assert(ok, "the command tree was not passed on to the player")
+		return ac.RootNode
+	}
+	h.handleAvailableCommands(tree())
+	first := last()
+	zz.Assert((zzChild(first, "c") != nil) == r["c"].allow && (zzChild(first, "b") != nil) == r["b"].allow, "the first tree does not follow the requirements")
+	// between the announcements: the verdicts for b, b1 and c change, and a plugin registers a command
+	r["b"].allow, r["b1"].allow, r["c"].allow = zz.Bool(), zz.Bool(), zz.Bool()
+	late := zz.Bool()
+	if late {
+		px.command.Dispatcher.Register(brigodier.Literal("late").Executes(zzRun))
+	}
+	h.handleAvailableCommands(tree())
+	second := last()
+	zz.Assert(zzChild(second, "say") != nil, "a backend command was dropped from a later tree")
+	zz.Assert((zzChild(second, "c") != nil) == r["c"].allow, "a later tree carries a proxy command the player no longer passes the requirement for (or lacks one it now passes)")
+	zz.Assert((zzChild(second, "b") != nil) == r["b"].allow, "a later tree carries a proxy command the player no longer passes the requirement for (or lacks one it now passes)")
+	if r["b"].allow {
+		zz.Assert((zzChild(zzChild(second, "b"), "b1") != nil) == r["b1"].allow, "a later tree carries a nested proxy node the player no longer passes the requirement for (or lacks one it now passes)")
+	}
+	zz.Assert((zzChild(second, "late") != nil) == late, "a proxy command registered between two announcements is missing from the later tree")
+	zz.Reach("second-tree")
+}
+
 func VerifMutant_Filter() {
 	r := zzReqs("a", "a1", "x", "a2", "b", "b1", "c")
 	d := zzProxyTree(r, false)
